@@ -49,6 +49,7 @@ class Result:
         self.config = config
         self.checks = []  # dicts: ok, what, where, detail, key
         self.inconclusive = None
+        self.soft = []
         self.notes = []
 
     @property
@@ -251,7 +252,10 @@ class Cx:
         for rx in refute:
             if re.search(rx, o):
                 return self.check(False, what, site, {"origin": o, "refuted_by": rx}, key="flow " + what, body=body)
-        raise Inconclusive("%s: origin %r is neither an accepted nor a refuted form" % (what, o))
+        # unknown form: keep evaluating the rest of the obligation (a later check may still find a
+        # positive contradiction); the obligation ends INCONCLUSIVE unless a violation was recorded
+        self.res.soft.append("%s: origin %r is neither an accepted nor a refuted form" % (what, o[:300]))
+        return None
 
 
 def _cx_stores(self, body, place_rx=None):
@@ -343,10 +347,12 @@ def run_property(prop, tier, facts_by_config, specimen_by_config, seed=0):
             cx = Cx(None, o, config, facts_by_config[config], specimen_by_config.get(config))
             try:
                 o.fn(cx)
+                if cx.res.soft and not cx.res.inconclusive:
+                    cx.res.inconclusive = "; ".join(cx.res.soft[:3])
                 if not cx.res.checks and not cx.res.inconclusive:
                     cx.res.inconclusive = "obligation evaluated no instance (vacuous)"
             except Inconclusive as e:
-                cx.res.inconclusive = str(e)
+                cx.res.inconclusive = "; ".join([str(e)] + cx.res.soft[:2])
             except Exception as e:  # fail closed, never as a violation
                 cx.res.inconclusive = "checker error: %s: %s @ %s" % (
                     type(e).__name__,
